@@ -365,11 +365,13 @@ def cacg_fit_instance(lead, N, D, with_saliency, cov_norm='eigenvalue', floor=1e
 
 
 # ----------------------------------------------------------------------------- alternation of E and M steps
-def alternation_instance(kind, iterations, aligner=False, from_model=False):
+def alternation_instance(kind, iterations, aligner=False, from_model=False, K=2):
     """fit() with recording stubs for the M-step and the E-step: call sequence and data flow."""
     from pb_bss.distribution import cacgmm, cwmm, gmm, vmfmm
     from pb_bss.distribution import mixture_model_utils as mmu
-    F, K, N, D = 2, 2, 3, 2
+    F, N, D = 2, 3, 2
+    # mapping[k, f]: K = 2 swaps the classes of bin 0; K = 3 uses a 3-cycle (not an involution) in bin 0 and a swap in bin 1
+    fixed_mapping = np.array([[1, 0], [0, 1]]) if K == 2 else np.array([[1, 0], [2, 2], [0, 1]])
     log = []
 
     class FakeModel:
@@ -392,7 +394,7 @@ def alternation_instance(kind, iterations, aligner=False, from_model=False):
 
         def make_model(i):
             from pb_bss.distribution.complex_angular_central_gaussian import ComplexAngularCentralGaussian as _CACG
-            mdl = cacgmm.CACGMM(weight=np.full((F, K, 1), 0.5), cacg=_CACG(
+            mdl = cacgmm.CACGMM(weight=np.full((F, K, 1), 1.0 / K), cacg=_CACG(
                 covariance_eigenvectors=np.zeros((F, K, D, D), dtype=complex), covariance_eigenvalues=np.ones((F, K, D))))
             mdl._tag = i
             return mdl
@@ -419,7 +421,7 @@ def alternation_instance(kind, iterations, aligner=False, from_model=False):
 
     class FixedAligner:
         def calculate_mapping(self, mask, *a, **k):
-            return np.array([[1, 0], [0, 1]])          # swap classes in bin 0, identity in bin 1
+            return fixed_mapping.copy()
 
         @staticmethod
         def apply_mapping(mask, mapping):
@@ -483,7 +485,7 @@ def alternation_instance(kind, iterations, aligner=False, from_model=False):
                 continue
             eaff, eqf = preve[-1][3]
             if aligner:
-                mp = np.array([[1, 0], [0, 1]])
+                mp = fixed_mapping
                 eaff = np.transpose(np.transpose(eaff, (1, 0, 2))[mp, range(F)], (1, 0, 2))
                 if eqf is not None:
                     eqf = np.transpose(np.transpose(eqf, (1, 0, 2))[mp, range(F)], (1, 0, 2))
@@ -491,7 +493,7 @@ def alternation_instance(kind, iterations, aligner=False, from_model=False):
             if kind == 'cacgmm':
                 yield 'm-step-%d-quadratic-form-from-preceding-e-step' % i, sp._f(np.array_equal(np.asarray(a[1]), eqf))
 
-    name = '%s-it%d%s%s' % (kind, iterations, '-aligner' if aligner else '', '-from-model' if from_model else '')
+    name = '%s-it%d%s%s%s' % (kind, iterations, '-aligner' if aligner else '', '-from-model' if from_model else '', '-K3' if K == 3 else '')
     func = {'cacgmm': 'cacgmm:CACGMMTrainer.fit', 'cwmm': 'cwmm:CWMMTrainer.fit', 'gmm': 'gmm:GMMTrainer.fit', 'vmfmm': 'vmfmm:VMFMMTrainer.fit'}[kind]
     return Instance('C08', DN + func, name, make, call, ensures, patches=patches, crosscheck=False, native_n=1, frame=False)
 
@@ -531,6 +533,8 @@ def instances(tier):
     out.append(alternation_instance('cwmm', 3, aligner=True))
     out.append(alternation_instance('cacgmm', 2, from_model=True))
     out.append(alternation_instance('cacgmm', 3, aligner=True, from_model=True))
+    out.append(alternation_instance('cacgmm', 3, aligner=True, K=3))
+    out.append(alternation_instance('cwmm', 2, aligner=True, K=3))
     return out
 
 
